@@ -8,6 +8,7 @@ import (
 	"encoding/json"
 	"fmt"
 	"net/url"
+	"regexp"
 	"strings"
 	"testing"
 
@@ -193,11 +194,21 @@ func c20Gen(t *rapid.T) (hostile, twin c20Req, desc string, rawValue string) {
 
 func TestC20(t *testing.T) {
 	c := evid.New("C20")
-	c.Rule = "requests to every listing of both API versions (v2 JSON bodies with $match/$lt/$lte/$gt/$gte, nested $and/$or, GET and HEAD; v1 query parameters address, account, source, destination, reference, metadata[k], balance, balanceOperator, start_time, end_time, after), with and without pit/expand, carrying values and metadata keys assembled from hostile fragments (quotes, doubled quotes, backslashes, comment markers, semicolons, dollar quotes, parentheses, non-ASCII, newlines, 10 kB runs) or JSON non-strings; each is paired with a benign twin of the same shape. The real routers run over ledgerstore.Store over a recording driver. Oracle: hostile request rejected, or every statement lexes as PostgreSQL and has the twin's token skeleton (string constants and numbers abstracted). Non-trivial = the hostile request reached the driver and its value contains one of ' \\ \" -- /* ; distinct by (endpoint, key, operator, value)."
+	c.Rule = "requests to every listing of both API versions (v2 JSON bodies with $match/$lt/$lte/$gt/$gte, nested $and/$or, GET and HEAD; v1 query parameters address, account, source, destination, reference, metadata[k], balance, balanceOperator, start_time, end_time, after), with and without pit/expand, carrying values and metadata keys assembled from hostile fragments (quotes, doubled quotes, backslashes, comment markers, semicolons, dollar quotes, parentheses, non-ASCII, newlines, 10 kB runs) or JSON non-strings; each is paired with a benign twin of the same shape. The real routers run over ledgerstore.Store over a recording driver. Oracle: the request sent twice is treated the same way both times; hostile request rejected, or every statement lexes as PostgreSQL and has the twin's token skeleton (string constants and numbers abstracted). Non-trivial = the hostile request reached the driver and its value contains one of ' \\ \" -- /* ; distinct by (endpoint, key, operator, value)."
 	c.Assumptions = []string{"the PostgreSQL lexer of harness/sqlrec (standard_conforming_strings=on) is the judge of SQL structure", "the content of a jsonpath / JSON document inside a string constant is not inspected"}
 	runProp(t, c, func(rt *rapid.T) {
 		hostile, twin, desc, val := c20Gen(rt)
 		hs, hstm := c20Serve(hostile)
+		// the same request again: whatever a first look at a value leaves behind in the process (a cache, a
+		// memo) must not change how the value is treated the second time
+		hs2, hstm2 := c20Serve(hostile)
+		if hs2 != hs || strings.Join(hstm2, "\n") != strings.Join(c20SameInstants(hstm, hstm2), "\n") {
+			if !c.IsKnown("C20/second-time-differs") {
+				rt.Logf("first:  %d\n%s\nsecond: %d\n%s", hs, clip(strings.Join(hstm, "\n")), hs2, clip(strings.Join(hstm2, "\n")))
+				violation(rt, c, "C20/second-time-differs", "%s: the same request was answered %d with %d statement(s) the first time and %d with %d statement(s) the second time", desc, hs, len(hstm), hs2, len(hstm2))
+			}
+			return
+		}
 		ts, tstm := c20Serve(twin)
 		special := strings.ContainsAny(val, `'\";`) || strings.Contains(val, "--") || strings.Contains(val, "/*")
 		labels := []string{desc, fmt.Sprintf("hostile-status:%d", hs/100*100), fmt.Sprintf("twin-status:%d", ts/100*100)}
@@ -256,6 +267,25 @@ func TestC20(t *testing.T) {
 			fail("C20/statement-count/"+kind, "the hostile request sent %d statement(s), its benign twin %d", len(hstm), len(tstm))
 		}
 	})
+}
+
+var c20InstantRe = regexp.MustCompile(`'\d{4}-\d{2}-\d{2}T\d{2}:\d{2}:\d{2}(\.\d+)?Z'`)
+
+// c20SameInstants rewrites the timestamps of a (the implicit "now" of a request) to those of b when the two
+// statement lists differ in nothing else, so that two runs of one request can be compared textually.
+func c20SameInstants(a, b []string) []string {
+	if len(a) != len(b) {
+		return a
+	}
+	out := make([]string, len(a))
+	for i := range a {
+		ia, ib := c20InstantRe.FindAllString(a[i], -1), c20InstantRe.FindAllString(b[i], -1)
+		out[i] = a[i]
+		if len(ia) == len(ib) && c20InstantRe.ReplaceAllString(a[i], "T") == c20InstantRe.ReplaceAllString(b[i], "T") {
+			out[i] = b[i]
+		}
+	}
+	return out
 }
 
 func clip(s string) string {
